@@ -1,6 +1,7 @@
 use crate::ctx::{Ctx, Tier};
 use serde_json::Value;
 
+pub mod c03;
 pub mod c17;
 
 pub struct PropSpec {
@@ -27,7 +28,7 @@ impl PropSpec {
 }
 
 pub fn all() -> Vec<PropSpec> {
-    vec![c17::spec()]
+    vec![c03::spec(), c17::spec()]
 }
 
 pub fn find(id: &str) -> Option<PropSpec> {
